@@ -375,3 +375,101 @@ def _opaque_str(ex, st, self_v, args, kwargs, node):
 
 
 STUBS["traceback.format_exc"] = _opaque_str
+
+
+# ======================================================================================================
+# manage_workers: spawn up to the target, retire the surplus OLDEST-first
+# ======================================================================================================
+@contract("gunicorn.arbiter:Arbiter.manage_workers", props=("C03", "C10", "C18"))
+class ManageWorkers(Contract):
+    weight = 4
+
+    def cases(self, env):
+        st = State()
+        a = mk_arbiter(env, st, tracked_are_children=True)
+        st.obj(a).fields["LISTENERS"] = Opaque("listeners")
+        return [("manage", st, {"self": a}, {})]
+
+    def pre(self, c):
+        return SpawnWorker.pre(SpawnWorker(), c)
+
+    def modifies(self, c):
+        return SpawnWorker.modifies(SpawnWorker(), c) + [("ghost", "now"), ("ghost", "K_sig_SIGTERM"),
+                                                         ("field", c.a["self"], "_last_logged_active_worker_count", OptionShape(IntShape()))]
+
+    def raises(self, c):
+        return [(SystemExit, None), (OSError, None), (RuntimeError, None)]
+
+    def post(self, c):
+        st1, st0 = c.st, c.old
+        W = A(c).fields["WORKERS"]
+        nw = A(c, st0).fields["_num_workers"].t
+        n0, n1 = w_size(st0, W), w_size(st1, W)
+        m1, m0 = w_map(st1, W), w_map(st0, W)
+        k1, k0 = sig_arr(st1, TERM), sig_arr(st0, TERM)
+        wa0 = A(c, st0).fields["worker_age"].t
+        p, q = qvar("p"), qvar("q")
+        termed = lambda x: sel(k1, x) > sel(k0, x)
+        return [("only-TERM-is-sent", all_sig_same(st1, st0, TERM)),
+                ("at-least-the-target-number-of-workers-afterwards", n1 >= Min(nw, Max(n0, nw))),
+                ("each-worker-gets-at-most-one-TERM", z3.ForAll([p], And(sel(k1, p) >= sel(k0, p), sel(k1, p) <= sel(k0, p) + 1))),
+                ("only-tracked-workers-are-retired", z3.ForAll([p], Implies(termed(p), Or(sel(m0, p) != 0, sel(m1, p) != 0)))),
+                ("retired-oldest-first:every-retired-worker-is-older-than-every-worker-that-was-spared",
+                 z3.ForAll([p, q], Implies(And(termed(p), sel(m1, p) != 0, sel(m1, q) != 0, Not(termed(q))),
+                                           age_of(st1, sel(m1, p)) < age_of(st1, sel(m1, q))))),
+                ("nothing-retired-when-not-above-target", Implies(Max(n0, nw) <= nw, z3.ForAll([p], Not(termed(p))))),
+                ]
+
+    loops = {0: dict(anchor="while len(workers) > self.num_workers", cands=[
+        ("only-TERM", lambda L: all_sig_same(L.st, L.fentry, TERM)),
+        ("sorted-view", lambda L: _mw_view(L)),
+        ("retired-prefix", lambda L: _mw_prefix(L)),
+        ("num_workers-fixed", lambda L: L.st.obj(L.self).fields["_num_workers"].t == L.fentry.obj(L.self).fields["_num_workers"].t),
+        ("ages-fixed", lambda L: L.st.cheap[("WorkerObj", "age#0")] == L.entry.cheap[("WorkerObj", "age#0")]),
+        ("never-below-target", lambda L: _mw_len(L)),
+        ("lemma:every-tracked-worker-is-in-the-sorted-list", lambda L: _mw_cover(L)),
+        ("lemma:sorted-list-is-strictly-ascending-by-age", lambda L: _mw_strict(L)),
+    ])}
+
+
+def _mw_len(L):
+    cur, ent = L.st.obj(L.workers).sym, L.entry.obj(L.workers).sym
+    nw = L.fentry.obj(L.self).fields["_num_workers"].t
+    return And(cur.hi - cur.lo >= Min(nw, ent.hi - ent.lo), Or(cur.lo == ent.lo, ent.hi - ent.lo > nw))
+
+
+def _mw_cover(L):
+    ent = L.entry.obj(L.workers).sym
+    W = L.entry.obj(L.self).fields["WORKERS"]
+    m0 = w_map(L.entry, W)
+    p, j = qvar("p"), qvar("j")
+    return z3.ForAll([p], Implies(sel(m0, p) != 0, z3.Exists([j], And(ent.lo <= j, j < ent.hi, ent.elem(j).items[0].t == p,
+                                                                     ent.elem(j).items[1].t == sel(m0, p)))))
+
+
+def _mw_strict(L):
+    ent = L.entry.obj(L.workers).sym
+    i, j = qvar("i"), qvar("j")
+    return z3.ForAll([i, j], Implies(And(ent.lo <= i, i < j, j < ent.hi),
+                                     age_of(L.entry, ent.elem(i).items[1].t) < age_of(L.entry, ent.elem(j).items[1].t)))
+
+
+def _mw_view(L):
+    cur, ent = L.st.obj(L.workers).sym, L.entry.obj(L.workers).sym
+    return And(cur.hi == ent.hi, cur.lo >= ent.lo, cur.lo <= cur.hi, *[x == y for x, y in zip(cur.arrays, ent.arrays)])
+
+
+def _mw_prefix(L):
+    """exactly the sorted entries before the view start have received TERM (once), nobody else"""
+    st1, st0 = L.st, L.entry
+    cur, ent = st1.obj(L.workers).sym, st0.obj(L.workers).sym
+    k1, k0 = sig_arr(st1, TERM), sig_arr(st0, TERM)
+    W = st1.obj(L.self).fields["WORKERS"]
+    m1, m0 = w_map(st1, W), w_map(st0, W)
+    i, p = qvar("i"), qvar("p")
+    pid_at = lambda j: ent.elem(j).items[0].t
+    inpre = lambda x: z3.Exists([i], And(ent.lo <= i, i < cur.lo, pid_at(i) == x))
+    return And(z3.ForAll([p], Implies(Not(inpre(p)), And(sel(k1, p) == sel(k0, p), sel(m1, p) == sel(m0, p)))),
+               # a processed entry either got its TERM and is still tracked, or had already vanished and was forgotten
+               z3.ForAll([p], Implies(inpre(p), Or(And(sel(k1, p) == sel(k0, p) + 1, sel(m1, p) == sel(m0, p)),
+                                                   And(sel(k1, p) == sel(k0, p), sel(m1, p) == 0)))))
